@@ -64,6 +64,26 @@ def check(run):
                     run.violation("spellings-disagree", name, inp, "same weights as f*g", "differs")
             if full is None:
                 continue
+            # out= and in-place spellings of the Modes x Modes product
+            try:
+                o = spherical.Modes(np.full(full.shape, 100.0 + 7.0j), spin_weight=0, ell_min=0, ell_max=Lf + Lg)
+                r = np.multiply(f, g, out=o)
+                run.gap_case("product-out", (sf, Lf, sg, Lg, la, lb), "out=")
+                if not np.allclose(np.asarray(r.view(np.ndarray)), full, rtol=1e-13, atol=1e-13 * max(float(np.max(np.abs(full))), 1e-300)) or not np.shares_memory(r, o):
+                    run.violation("product-out-wrong", "np.multiply(f,g,out=)", {**inp, "out_prefilled": True}, "same weights as f*g written into out", f"max diff {float(np.max(np.abs(np.asarray(r.view(np.ndarray)) - full)))}")
+                elif r.spin_weight != sf + sg or o.spin_weight != sf + sg:
+                    run.violation("product-metadata", "np.multiply(f,g,out=)", inp, sf + sg, [r.spin_weight, o.spin_weight])
+            except Exception as e:
+                run.violation("multiply-raised", "np.multiply(f,g,out=)", inp, "product", repr(e))
+            if Lg == 0 and lb == () or (Lg == 0 and la == lb):
+                try:
+                    h = f.copy()
+                    h *= g
+                    run.gap_case("product-out", (sf, Lf, sg, Lg, la, lb, "in-place"), "in-place")
+                    if h.shape != full.shape or not np.allclose(h.ndarray, full, rtol=1e-13, atol=1e-13 * max(float(np.max(np.abs(full))), 1e-300)) or h.spin_weight != sf + sg:
+                        run.violation("product-out-wrong", "f *= g", inp, "same as f*g", "differs")
+                except Exception as e:
+                    run.violation("multiply-raised", "f *= g", inp, "product", repr(e))
             # function form with inputs stored from their own (different) ell_min, as its docstring permits
             for (ef, eg) in [(abs(sf), abs(sg)), (min(abs(sf), Lf), 0), (0, min(abs(sg), Lg)), (min(1, Lf), min(2, Lg))]:
                 if ef > Lf or eg > Lg or (ef, eg) == (0, 0):
@@ -133,6 +153,18 @@ def check(run):
                         run.violation("array-broadcast-mult", "f*array", inp, "scales each leading element", "differs")
                 except Exception as e:
                     run.violation("scalar-op-raised", "f*array(leading shape)", inp, "scaled", repr(e))
+    # an `out` too small for the product must be rejected, not written past its end (run in a subprocess: the defect is memory corruption)
+    import subprocess, sys, os
+    code = ("import numpy as np, spherical\n"
+            "f = spherical.Modes(np.arange(4)+1j, spin_weight=0, ell_min=0, ell_max=1)\n"
+            "g = spherical.Modes(np.arange(9)+2j, spin_weight=0, ell_min=0, ell_max=2)\n"
+            "guard = np.full(4096, 5.0)\n"
+            "try:\n    f *= g\n    print('RETURNED')\nexcept Exception as e:\n    print('RAISED', type(e).__name__)\n"
+            "print('F-UNCHANGED' if np.array_equal(f.view(np.ndarray), np.arange(4)+1j) else 'F-CLOBBERED')\n")
+    pr = subprocess.run([sys.executable, "-c", code], capture_output=True, text=True, timeout=600, env=dict(os.environ))
+    run.gap_case("product-out", "too-small-out", "too-small-out", {"stdout": pr.stdout.strip(), "rc": pr.returncode})
+    if pr.returncode != 0 or "RAISED" not in pr.stdout:
+        run.violation("product-out-too-small-not-rejected", "f *= g (product larger than f)", {"ell_max_f": 1, "ell_max_g": 2, "returncode": pr.returncode}, "raise without writing past the end of f", (pr.stdout + pr.stderr)[-300:])
     run.assumptions += ["the Clebsch-Gordan series (product of the functions) is checked by evaluation on rotors only; truncation = cut is bitwise"]
 
 
